@@ -241,7 +241,7 @@ def build_frame(L, route, send, req, frag=True):
                 rp = json.loads(route["json"])
             else:
                 raise ValueError(kind)
-            sp = None if send == "D" else ""
+            sp = {"D": None, "E": "", "O1": "@2/1", "O2": "@6/2", "O3": "@1/1"}[send]
             c.unconnected_send(request=request, route_path=rp, send_path=sp)
     except Exception as exc:
         raise BuildReject(type(exc).__name__)
@@ -385,7 +385,7 @@ def ref_exec(tags, ops):
         elif k == "a":
             res.append("0:*")
         elif k == "u":
-            return None
+            res.append("nz")          # an unknown tag is answered with a CIP error status; nothing is accessed
     return tags, res, acc
 
 
@@ -419,16 +419,16 @@ def spelled_route(route, send):
     if k == "falsy":
         return "absent" if send == "E" else []
     if k == "default":
-        return [[1, 0]] if send == "D" else None
+        return [[1, 0]] if send != "E" else None
     if k in ("text", "list"):
-        if route.get("spelled") is not None and send == "D":
+        if route.get("spelled") is not None and send != "E":
             return route["spelled"]
     return None
 
 
 def bare_frag(carried, req, frag):
     """a single Read Tag Fragmented (service 0x52) sent without the Unconnected Send wrapper (also 0x52)"""
-    return carried == "absent" and frag and not req["multi"] and req["ops"][0][0] == "r"
+    return carried == "absent" and frag and not req["multi"] and req["ops"][0][0] in "ru"
 
 
 def want_accept(pers, carried):
@@ -601,6 +601,9 @@ def srv_routes():
     R.append(({"kind": "list", "json": json.dumps(seg_dicts([[1, 0], [2, "1.2.3.4"]])),
                "spelled": [[1, 0], [2, "1.2.3.4"]]}, "D"))
     R.append(({"kind": "text", "text": "1/0", "spelled": [[1, 0]]}, "E"))       # the client refuses to build this
+    R.append(({"kind": "default"}, "O1"))                                       # sent to the Message Router, not a CM
+    R.append(({"kind": "falsy", "value": "False"}, "O2"))                       # a Connection Manager instance that is not there
+    R.append(({"kind": "text", "text": "2/0", "spelled": [[2, 0]]}, "O3"))      # the Identity object
     R.append(({"kind": "raw", "segs": [[1, "0"]]}, "D"))                        # link kind: address "0" vs number 0
     R.append(({"kind": "raw", "segs": [[1, "1.2.3.04"]]}, "D"))
     R.append(({"kind": "raw", "segs": [["o", 0, 6]]}, "D"))                     # not a port segment at all
@@ -765,7 +768,7 @@ class C15(Suite):
         if r < 0.06:
             return {"kind": "none"}, "D"
         if r < 0.12:
-            return {"kind": "falsy", "value": rng.choice(["False", "0", "[]", "''"])}, rng.choice("DE")
+            return {"kind": "falsy", "value": rng.choice(["False", "0", "[]", "''"])}, rng.choice(["D", "E", "D", "E", "O1"])
         if r < 0.16:
             return {"kind": "default"}, "D"
         segs = [list(s) for s in cfgsegs]
@@ -807,7 +810,7 @@ class C15(Suite):
                 raw.insert(rng.randint(0, len(raw)), ["o", rng.randrange(len(OTHER_KINDS)), rng.choice([1, 6, 255])])
             return {"kind": "raw", "segs": raw}, "D"
         if r < 0.6:
-            return {"kind": "text", "text": spell_slash(segs), "spelled": segs}, "D"
+            return {"kind": "text", "text": spell_slash(segs), "spelled": segs}, rng.choice(["D"] * 12 + ["O1", "O2", "O3"])
         if r < 0.85:
             form = rng.choice(["dicts", "strs", "pairs", "mixed", "ws", "swapped", "strnum"])
             return {"kind": "text", "text": spell_json(segs, form, rng), "spelled": segs}, "D"
@@ -956,6 +959,8 @@ class C15(Suite):
                 return "g.%d" % op[1]
             if k == "s":
                 return "s.%d.%s" % (op[1], fmt_nats(op[2]))
+            if k == "u":
+                return "uf" if frag else "u"
             return k
         return ("M:" if req["multi"] else "S:") + ";".join(one(op) for op in req["ops"])
 
@@ -1230,6 +1235,9 @@ class C15(Suite):
         refused = status != "0"
         if refused and (payload != "-" or tags != tags0 or log != "-"):
             return "error status %s but payload=%s tags=%s accesses=%s" % (status, payload, tags, log)
+        if c["send"].startswith("O"):
+            # not a question of route paths: only a Connection Manager can take an Unconnected Send
+            return None if refused else "an Unconnected Send addressed to %s was executed" % c["send"]
         if pers is None or carried is None:
             return None
         want = want_accept(pers, carried)
@@ -1240,7 +1248,7 @@ class C15(Suite):
             if not refused:
                 return "personality %s accepted a request carrying route path %s" % (pers, carried)
             return None
-        if ref is None:           # the request itself fails (unknown tag): an error status either way
+        if ref is None:           # the frame itself is garbled (bare 0x52): an error status either way
             return None
         if refused:
             return "personality %s refused a request carrying route path %s" % (pers, carried)
@@ -1279,6 +1287,9 @@ class C15(Suite):
             carried = spelled_route(f["route"], f["send"])
             if carried is None:
                 return None
+            if f["send"].startswith("O"):
+                expect += 1
+                break
             expect += 1
             if not want_accept(pers, carried):
                 break
@@ -1300,6 +1311,8 @@ class C15(Suite):
         """how the request's route path relates to the configured one (for the histogram)"""
         pers = spelled_personality(c["cfg"])
         carried = spelled_route(c["route"], c["send"])
+        if c["send"].startswith("O"):
+            return "notcm"
         if pers is None:
             return "cfg?"
         if carried is None:
